@@ -124,6 +124,7 @@ type vfFakeClient struct {
 	pending  []func()
 	wg       sync.WaitGroup
 	expected map[string]*conformancev1.ClientResponseResult
+	feedback map[string][]string // per test name: wire feedback the client attaches to its (matching) result
 }
 
 func (f *vfFakeClient) sendRequest(req *conformancev1.ClientCompatRequest, whenDone func(string, *conformancev1.ClientCompatResponse, error)) error {
@@ -154,7 +155,9 @@ func (f *vfFakeClient) sendRequest(req *conformancev1.ClientCompatRequest, whenD
 		case vfContainsInt(f.c.Mismatch, caseIdx):
 			resp.Result = &conformancev1.ClientCompatResponse_Response{Response: &conformancev1.ClientResponseResult{Payloads: []*conformancev1.ConformancePayload{{Data: []byte("WRONG")}}}}
 		default:
-			resp.Result = &conformancev1.ClientCompatResponse_Response{Response: proto.Clone(f.expected[name]).(*conformancev1.ClientResponseResult)}
+			result := proto.Clone(f.expected[name]).(*conformancev1.ClientResponseResult)
+			result.Feedback = append(result.Feedback, f.feedback[name]...)
+			resp.Result = &conformancev1.ClientCompatResponse_Response{Response: result}
 		}
 		whenDone(name, resp, nil)
 	}
